@@ -6,4 +6,9 @@ CLAIMS = {
         "note": "Does not decide parse(print(v)) = v or the rejection set as arithmetic facts over all strings; trusts core::str::parse::<u32>, str::split, Itertools::format, derive(Ord).",
     },
 }
+CLAIMS["C19"] = {
+    "technique": "MIR match-arm term extraction (sibling agreement), decision-path tables, interval/sign-direction abstract domains, panic-site census",
+    "text": "Decides per match arm that Add/Sub/destructure/complete_with rebuild the same components, that is_after_or_eq_any is exactly the >=/OR table, that the pre-epoch microsecond conversion can reach i64::MIN, that every branch of the truncation helper can adjust by 0 ns (idempotence) and moves toward the epoch (agreement with the storage encoding), and that the conversion functions have no panic-capable site beyond range-checked SystemTime arithmetic.",
+    "note": "Does not decide the round-trip identities as arithmetic facts over all i64 / all instants; trusts std::time arithmetic and Duration::as_micros truncation.",
+}
 NOT_APPLICABLE = {}
